@@ -228,7 +228,8 @@ def run_query(cfg, g, sr, q):
         heads = {}
         for r in ln.rules:
             heads[str(r.head)] = heads.get(str(r.head), 0) + r.w
-        return {"values": [enc(ln(s2py(xs))) for xs in q["xs"]], "head_mass": {k: enc(v) for k, v in heads.items()}, "Z": enc(cfg.treesum()), "n_rules": len(ln.rules)}
+        return {"values": [enc(ln(s2py(xs))) for xs in q["xs"]], "head_mass": {k: enc(v) for k, v in heads.items()}, "Z": enc(cfg.treesum()), "n_rules": len(ln.rules),
+                "rules": [[enc(r.w), str(r.head), [str(y) for y in r.body]] for r in ln.rules]}
     if op == "add_eos_call":
         from genlm.grammar import add_EOS
 
